@@ -602,3 +602,72 @@ func scenarioCloseFault(withStacks bool) {
 	}
 	scenarioResult("closefault", sl, "", "")
 }
+
+// replayF3d — Proofs.down_vs_setprivatekey_vs_sender_rekey_deadlocks (first met by the thorough
+// stress run with the sender; replayed here with the peer's RECEIVER, the only one of the
+// routines Peer.Stop joins that can be parked at a harness-owned point holding no device lock).
+//
+//	device is the initiator of A's session; two transport packets from A.
+//	T2 RoutineSequentialReceiver: first packet processed, parked inside tun.Write (WriteGate);
+//	   the second container is already queued behind it.  Now the keypair is aged 170 s
+//	   (> RejectAfterTime - KeepaliveTimeout - RekeyTimeout = 165 s) and the last handshake 6 s.
+//	T0 Down: bind closed, peers.RLock, Peer.Stop(A) waits for T2.
+//	T1 IpcSet(private_key = a fresh random key): staticIdentity.Lock, waits for peers.Lock.
+//	release T2: second container -> keepKeyFreshReceiving -> SendHandshakeInitiation ->
+//	   CreateMessageInitiation -> staticIdentity.RLock: blocked by T1.  Cycle T0 -> T2 -> T1 -> T0.
+func replayF3d(withStacks bool) {
+	sl := &stepLog{}
+	a := cosim.NewPeer("A", "192.0.2.7:5555", "10.0.0.2/32")
+	w, err := cosim.NewWorld(cosim.Config{Up: true}, true, a)
+	if err != nil {
+		panic(err)
+	}
+	if err := establishDeviceInitiated(w, a, [4]byte{10, 0, 0, 2}); err != nil {
+		panic(err)
+	}
+	w.Settle()
+	pk := cosim.NoisePK(a.Pub)
+	sl.add("device up, device-initiated session with A")
+	entered := make(chan struct{})
+	release := make(chan struct{})
+	var armed atomic.Bool
+	armed.Store(true)
+	w.Tun.WriteGate = func(bufs [][]byte) {
+		if armed.Swap(false) {
+			close(entered)
+			<-release
+		}
+	}
+	inner := ref.Pad(ref.IPv4([4]byte{10, 0, 0, 2}, [4]byte{10, 9, 9, 9}, 40, 2))
+	w.Bind.Inject(sim.Dgram{From: a.Addr, Data: a.Session().Next(inner)})
+	select {
+	case <-entered:
+	case <-time.After(5 * time.Second):
+		panic("receiver never reached tun.Write")
+	}
+	w.Bind.Inject(sim.Dgram{From: a.Addr, Data: a.Session().Next(inner)})
+	deadline := time.Now().Add(5 * time.Second)
+	for w.Dev.VerifPeer(pk).InboundLen < 1 {
+		if time.Now().After(deadline) {
+			panic("second container not queued")
+		}
+		time.Sleep(time.Millisecond)
+	}
+	w.Dev.VerifShiftKeypairAges(pk, 170*time.Second)
+	w.Dev.VerifShiftHandshakeTimes(pk, 6*time.Second)
+	sl.add("T2 RoutineSequentialReceiver parked inside tun.Write (WriteGate), second container queued; keypair aged 170 s, last handshake 6 s ago")
+	d0 := make(chan struct{})
+	go func() { defer close(d0); w.Dev.Down() }()
+	ok := waitEntry(func(e string) bool { return strings.Contains(e, "Device.downLocked>Peer.Stop@WaitGroup.Wait") }, 5*time.Second)
+	sl.add("T0 Down holds peers.RLock, Peer.Stop(A) waits for the receiver: %v", ok)
+	d1 := make(chan struct{})
+	go func() {
+		defer close(d1)
+		w.Dev.IpcSet("private_key=" + hexKey(ref.NewPrivate()) + "\n")
+	}()
+	ok = waitEntry(func(e string) bool { return strings.HasSuffix(e, "Device.SetPrivateKey@RWMutex.Lock") }, 5*time.Second)
+	sl.add("T1 IpcSet(private_key = fresh key) holds staticIdentity.Lock, waits for peers.Lock: %v", ok)
+	close(release)
+	sl.add("WriteGate released: receiver takes the second container -> keepKeyFreshReceiving -> CreateMessageInitiation -> staticIdentity.RLock")
+	finishReplay("f3d", sl, []chan struct{}{d0, d1}, 6*time.Second, withStacks)
+}
